@@ -18,14 +18,71 @@ class FactsError(Exception):
     pass
 
 
+def _tail(path, n):
+    """last n `::`-separated segments, ignoring `::` inside generic brackets"""
+    segs, depth, cur = [], 0, ''
+    i = 0
+    while i < len(path):
+        c = path[i]
+        if c == '<':
+            depth += 1
+        elif c == '>':
+            depth -= 1
+        if depth == 0 and path.startswith('::', i):
+            segs.append(cur)
+            cur = ''
+            i += 2
+            continue
+        cur += c
+        i += 1
+    segs.append(cur)
+    return '::'.join(segs[-n:])
+
+
+class TailDict(dict):
+    """items of the crate addressed by definition path; an item that moved to another (private) module is still found
+    through its unique tail (`Type::method`, constant or type name)"""
+
+    def __init__(self, n):
+        super().__init__()
+        self.n = n
+        self._alias = {}
+
+    def _resolve(self, key):
+        if dict.__contains__(self, key):
+            return key
+        if key in self._alias:
+            return self._alias[key]
+        if not isinstance(key, str) or not key.startswith('synth_utils::'):
+            return None
+        t = _tail(key, self.n)
+        c = [k for k in dict.keys(self) if k.startswith('synth_utils::') and _tail(k, self.n) == t]
+        r = c[0] if len(c) == 1 else None
+        self._alias[key] = r
+        return r
+
+    def __contains__(self, key):
+        return self._resolve(key) is not None
+
+    def __getitem__(self, key):
+        r = self._resolve(key)
+        if r is None:
+            raise KeyError(key)
+        return dict.__getitem__(self, r)
+
+    def get(self, key, default=None):
+        r = self._resolve(key)
+        return dict.__getitem__(self, r) if r is not None else default
+
+
 class Facts:
     def __init__(self, directory):
         self.dir = directory
         self.crates = {}
-        self.fns = {}        # path -> fn json
-        self.adts = {}       # path -> adt json
-        self.consts = {}     # path -> const json
-        self.tables = {}     # const path -> list[Fraction]
+        self.fns = TailDict(2)        # path -> fn json
+        self.adts = TailDict(1)       # path -> adt json
+        self.consts = TailDict(1)     # path -> const json
+        self.tables = TailDict(1)     # const path -> list[Fraction]
         for c in CRATES:
             p = os.path.join(directory, c + '.json')
             if not os.path.exists(p):
@@ -35,13 +92,14 @@ class Facts:
             for f in d['fns']:
                 f['crate'] = c
                 # the same path can be emitted twice for `const fn` (ctfe + runtime): keep the first
-                self.fns.setdefault(f['path'], f)
+                if not dict.__contains__(self.fns, f['path']):
+                    dict.__setitem__(self.fns, f['path'], f)
             for a in d['adts']:
                 a['crate'] = c
-                self.adts[a['path']] = a
+                dict.__setitem__(self.adts, a['path'], a)
             for k in d['consts']:
                 k['crate'] = c
-                self.consts[k['path']] = k
+                dict.__setitem__(self.consts, k['path'], k)
                 v = k.get('val')
                 if isinstance(v, dict) and 'array' in v:
                     vals = []
@@ -57,8 +115,14 @@ class Facts:
                             ok = False
                             break
                     if ok:
-                        self.tables[k['path']] = vals
+                        dict.__setitem__(self.tables, k['path'], vals)
         self._cfg = {}
+
+    def real(self, kind, path):
+        """definition path under which an item is actually found (items may have moved between private modules)"""
+        d = {'fn': self.fns, 'adt': self.adts, 'const': self.consts, 'table': self.tables}[kind]
+        r = d._resolve(path)
+        return r if r is not None else path
 
     # ---- lookup helpers
     def fn(self, path):
